@@ -1323,8 +1323,12 @@ def i_psignal(seg, p, fr, args, reg):
         seg.cut(p); return
     m = seg.m
     sig = args[1]
-    if not (is_conc(sig) and sig == 3):
+    if is_conc(sig) and sig == 9:
+        # Signal(os.Kill) is Kill
+        return kill_now(seg, p, fr, reg)
+    if not (is_conc(sig) and sig in (2, 3)):
         raise Unsupported('Signal(%r)' % (sig,))
+    # SIGQUIT and SIGINT alike: a signal the process may catch or ignore
     seg.flag(p, 'signal-sent-before-the-deadline', z3.Not(p.get(m.var('ctx.done', 'bool'))))
     waited = deliver(seg, p, 'interrupted')
     p.set(m.var('proc.intsent', 'bool'), z3.BoolVal(True))
@@ -1334,10 +1338,7 @@ def i_psignal(seg, p, fr, args, reg):
     seg.setreg(p, fr, reg, z3.If(waited, BV(ERR_PROCDONE), BV(ERR_NIL)))
     fr.idx += 1
 
-@intrinsic('(*os.Process).Kill')
-def i_pkill(seg, p, fr, args, reg):
-    if seg.before_visible(p, 'Process.Kill'):
-        seg.cut(p); return
+def kill_now(seg, p, fr, reg):
     m = seg.m
     seg.flag(p, 'kill-sent-before-the-deadline', z3.Not(p.get(m.var('ctx.done', 'bool'))))
     seg.flag(p, 'kill-without-interrupt-first', z3.Not(p.get(m.var('proc.intsent', 'bool'))))
@@ -1346,6 +1347,12 @@ def i_pkill(seg, p, fr, args, reg):
     p.set(m.var('proc.killsent', 'bool'), z3.BoolVal(True))
     seg.setreg(p, fr, reg, z3.If(waited, BV(ERR_PROCDONE), BV(ERR_NIL)))
     fr.idx += 1
+
+@intrinsic('(*os.Process).Kill')
+def i_pkill(seg, p, fr, args, reg):
+    if seg.before_visible(p, 'Process.Kill'):
+        seg.cut(p); return
+    return kill_now(seg, p, fr, reg)
 
 @intrinsic('(*os/exec.Cmd).Wait')
 def i_cmdwait(seg, p, fr, args, reg):
@@ -1758,7 +1765,7 @@ def main():
         # T0 = the goroutine running the command, T1 = the helper goroutine; T2.. = environment processes
         pk = 'github.com/rogpeppe/go-internal/testscript.'
         cfg = {'threads': 2 + len(WOS_ENV), 'nprog': 2, 'workers': 0, 'items': 0, 'maxtodo': 0, 'pool': 0, 'keys': 0,
-               'fields': {}, 'cells': True, 'globals': {'ErrProcessDone': ERR_PROCDONE},
+               'fields': {}, 'cells': True, 'globals': {'ErrProcessDone': ERR_PROCDONE, 'Interrupt': 2, 'Kill': 9},
                'spawned': [pk + 'waitOrStop$1']}
         entries = [(0, pk + 'VerifWosMain', {})]
         initial_active = {0} | set(range(2, 2 + len(WOS_ENV)))
